@@ -10,6 +10,7 @@ Program (JSON, re-executable):
 from __future__ import annotations
 
 import itertools
+import json
 
 import numpy as np
 from qiskit.circuit import QuantumCircuit, QuantumRegister, ClassicalRegister, Qubit, Clbit
@@ -169,6 +170,21 @@ def run_case(prog, fn, paulis):
     return case, cn
 
 
+def pack(case):
+    """Stored form of a case: the re-executable input in clear, the recorded canonical data as one JSON string
+    (json.dump of deeply nested lists is the dominant cost of the harness otherwise)."""
+    rest = {k: v for k, v in case.items() if k not in ("kind", "fn", "prog", "paulis")}
+    return dict(kind=case["kind"], fn=case["fn"], prog=case["prog"], paulis=case.get("paulis"), recorded=json.dumps(rest))
+
+
+def unpack(case):
+    if "recorded" in case:
+        c = dict(case)
+        c.update(json.loads(c.pop("recorded")))
+        return c
+    return case
+
+
 def emit(w, stream, case, cn, nontrivial):
     cin = case["input"]
     impl = case["impl"]
@@ -176,14 +192,13 @@ def emit(w, stream, case, cn, nontrivial):
     w.add(f"{stream}.cut", "chk_cut",
           (cn.factory(case["fn"]), len(cin["qubits"]), cin["nc"], coq_regs(cin["qregs"]), coq_regs(cin["cregs"]),
            coq_circ(cin["data"]), exp),
-          case, nontrivial=nontrivial)
+          pack(case), nontrivial=nontrivial)
     if case.get("paulis") is not None and case.get("expanded") is not None:
         e = case["expanded"]
         eexp = Res("ok", [coq_pauli(c) for c in e[1]]) if e[0] == "ok" else Res(e[0])
-        c2 = dict(case, kind="expand")
         w.add(f"{stream}.expand", "chk_cut_expand",
               (len(cin["qubits"]), coq_circ(cin["data"]), [coq_pauli(c) for c in case["paulis"]], eexp),
-              c2, nontrivial=nontrivial)
+              pack(dict(case, kind="expand")), nontrivial=nontrivial)
 
 
 # ----------------------------------------------------------------------------------------------
@@ -516,6 +531,7 @@ def _opsig(op):
 
 
 def judge(case):
+    case = unpack(case)
     prog = case["prog"]
     n = prog_nq(prog)
     nc = prog_nc(prog)
